@@ -162,7 +162,9 @@ def main(tier, seed):
         def a2c_fn(state, obs, actions, rewards, terms, last_obs, gamma, lmbda, gdef=gdef):
             vfn = nnx.merge(gdef, state)
             buf = types.SimpleNamespace(buffer={"obs": obs, "actions": actions, "rewards": rewards, "terminations": terms})
-            return a2c.prepare_a2c_batch(buf, vfn, last_obs, gym.spaces.Box(-1, 1, (1,)), gamma, lmbda)
+            out = a2c.prepare_a2c_batch(buf, vfn, last_obs, gym.spaces.Box(-1, 1, (1,)), gamma, lmbda)
+            # the documented bootstrap V(last_observation), traced next to the real routine (same terms -> same ASTs)
+            return tuple(out) + (vfn(last_obs).reshape(-1),)
         rng = np.random.default_rng(seed)
         ex = (st, jnp.array(rng.normal(size=(T, N, D)), dtype=jnp.float32), jnp.zeros((T, N, 1)), jnp.array(rng.normal(size=(T, N)), dtype=jnp.float32),
               jnp.zeros((T, N)), jnp.array(rng.normal(size=(N, D)), dtype=jnp.float32), 0.9, 0.8)
@@ -194,6 +196,14 @@ def main(tier, seed):
                     goals.append(S.close(lhs, delta + S.SA(g) * S.SA(l) * (1 - S.SA(tm)[t, env]) * adv[t + 1, env]))
             return goals
         e.obligation("per-env-gae-recurrence", a2c_ref)
+
+        def a2c_last(i, o):
+            st_, obs, act, rw, tm, last, g, l = i
+            adv = S.SA(o[2]).reshape(T, N)
+            vals = S.SA(o[3]).reshape(T, N) - adv
+            vlast = S.SA(o[-1]).reshape(N)
+            return [S.close(adv[T - 1, env], S.SA(rw)[T - 1, env] + S.SA(g) * vlast[env] * (1 - S.SA(tm)[T - 1, env]) - vals[T - 1, env]) for env in range(N)]
+        e.obligation("last-step-bootstraps-from-V(last_observation)", a2c_last, site="a2c.prepare_a2c_batch:last-step-bootstraps-from-V(last_observation)")
         for env in range(N):
             def vary_last(ins, env=env):
                 ml = np.zeros((N, D), dtype=bool); ml[env] = True
@@ -201,6 +211,9 @@ def main(tier, seed):
             others = [k for k in range(N) if k != env]
             e.noninterference(f"last_observation[{env}]-only-bootstraps-env{env}", vary_last,
                               lambda i, o, others=others: S.SA(o[2]).reshape(T, N)[:, others])
+
+    # ------------------------------------------------------------ learning signals from sampled subtrajectories (MR.Q)
+    _subtrajectory_signals(rep, sess, tier, seed)
 
     # ------------------------------------------------------------ PPO: layout of collect_trajectories fed to update_ppo's compute_gae call
     _ppo(rep, sess, tier, seed)
@@ -213,6 +226,113 @@ def main(tier, seed):
     rep.add_queries(sess)
     rep.samples = [o["name"] for o in rep.obligations if o["kind"] == "obligation"][:12]
     return rep.finish()
+
+
+def _subtrajectory_signals(rep, sess, tier, seed):
+    """MR.Q critic target and encoder loss: nothing after the first terminated step of a sampled subtrajectory
+    matters.  Mode P (forward passes generalised to fresh reals: holds for every network and observation) gives the
+    proof; a sat/unknown there is turned into a replayable two-copy counterexample with seeded networks (mode C)."""
+    from flax import nnx
+    from props import C03 as L3
+    from props.common import generalise, z3_vars_of
+    from props.lossframe import _mk
+
+    B = 2
+    for C, timed, final, H in ((L3.EncoderLoss, ("done{t}", "zs{t}", "ce{t}", "rew{t}"), (), L3.H_ENC), (L3.MRQ, (), ("qt1_next", "qt2_next"), L3.H_MRQ)):
+        case = C()
+        gdef, st, data = _mk(case, B, seed)
+        f = case.fn(gdef)
+        ex = (st,) + tuple(data)
+        site = f"{case.site}:causal"
+
+        def post(ins, outs):
+            gen, fresh, _ = generalise(outs[0], outs[1])
+            return (gen, fresh)
+        e = E1(rep, sess, f, ex, f"{case.site}[B={B},mode=P]:subtrajectory", post=post, soft=True, validate_sets=[ex])
+        d = e.ins[1:]
+        e.add_hyp(*case.hyps(d))
+        e.check_reachable()
+        gen_out, fresh = e.outs
+        r_, term_ = np.asarray(d[2], dtype=object), np.asarray(d[case.term_index], dtype=object)
+        settled = True
+        for b in range(B):
+            for k in range(H - 1):
+                later = []  # every symbol that belongs to row b after step k
+                for t in range(k + 1, H):
+                    later += [r_[b, t], term_[b, t]]
+                    for nm in timed:
+                        later += list(np.asarray(np.asarray(fresh[nm.format(t=t)], dtype=object)[b], dtype=object).reshape(-1))
+                    if "target_zs" in fresh:
+                        later += list(np.asarray(np.asarray(fresh["target_zs"], dtype=object)[b, t], dtype=object).reshape(-1))
+                for nm in final:
+                    later += list(np.asarray(np.asarray(fresh[nm], dtype=object)[b], dtype=object).reshape(-1))
+                pairs = [(v, z3.Real(str(v) + "_alt")) for v in later if isinstance(v, z3.ExprRef)]
+                goals = True
+                for leaf in jax.tree_util.tree_leaves(gen_out):
+                    for el in np.asarray(leaf, dtype=object).reshape(-1):
+                        if isinstance(el, z3.ExprRef):
+                            goals = V.s_and(goals, V.s_cmp("eq", el, z3.substitute(el, *pairs)))
+                alt_hyps = [z3.substitute(h, *pairs) for h in e.hyps]
+                q = sess.prove(f"{site}:row{b}-terminated-at-{k}-ignores-everything-later(2-copy)", e.hyps + alt_hyps + [V.to_z3(S.SA(term_[b, k]).eq(1).all())], goals)
+                if q.verdict != "unsat":
+                    settled = False
+        if settled:
+            continue
+        # mode C: seeded networks / observations; replayable two-copy counterexample.  Two easy families of queries
+        # instead of one hard one: (i) only the later flags are symbolic and vary (rewards at their seeded values),
+        # (ii) only the later rewards are symbolic and vary (flags concrete: terminated at k, later flags 0).
+        r_conc, t_conc = np.asarray(data[2], dtype=np.float32), np.asarray(data[case.term_index], dtype=np.float32)
+        found = False
+        for b in range(B):
+            for k in range(H - 1):
+                for what in ("flags", "rewards"):
+                    tc = t_conc.copy()
+                    tc[b, k] = 1.0
+                    tc[b, k + 1:] = 0.0
+
+                    def overrides(ins, st=st, data=data, case=case, what=what, tc=tc):
+                        ins = list(ins)
+                        ins[0] = st
+                        for kk in case.concrete_in_C:
+                            ins[1 + kk] = data[kk]
+                        if what == "flags":
+                            ins[1 + 2] = jnp.asarray(r_conc)
+                        else:
+                            ins[1 + case.term_index] = jnp.asarray(tc)
+                        for kk in range(len(data)):  # scalar weights / discounts at their seeded values
+                            if np.ndim(data[kk]) == 0:
+                                ins[1 + kk] = data[kk]
+                        return tuple(ins)
+                    ec = E1(rep, sess, lambda *a, f=f: f(*a)[0], ex, f"{case.site}[B={B},mode=C,seed={seed},symbolic-{what},row{b},k={k}]:subtrajectory",
+                            overrides=overrides, soft=True, numeric_consts=True)
+                    ec.add_hyp(*case.hyps(ec.ins[1:]))
+
+                    def vary(ins, b=b, k=k, what=what):
+                        m = [None] * len(ins)
+                        ix = 1 + (case.term_index if what == "flags" else 2)
+                        a_ = np.zeros(np.shape(ins[ix]), dtype=bool)
+                        a_[b, k + 1:] = True
+                        m[ix] = a_
+                        m[0] = jax.tree_util.tree_map(lambda x: None, ins[0])
+                        return tuple(m)
+
+                    def hyps_fn(iA, iB, b=b, k=k, what=what):
+                        hs = [h for h in case.hyps(iB[1:])]
+                        if what == "flags":
+                            hs.append(S.SA(iA[1 + case.term_index])[b, k].eq(1))
+                        return hs
+                    r = ec.noninterference(f"terminated-at-{k}-ignores-later-{what}", vary,
+                                           lambda i, o: S.stack([S.SA(x).reshape(-1)[0] for x in jax.tree_util.tree_leaves(o) if np.asarray(x).size == 1]),
+                                           hyps_fn=hyps_fn, site=f"{case.site}:nothing-after-the-first-terminated-step-matters")
+                    if r is False:
+                        found = True
+                        break
+                if found:
+                    break
+            if found:
+                break
+        if not found:
+            rep.inconclusive_(site, "mode P did not prove causality and mode C found no replayable counterexample")
 
 
 def _gae_call_from_update_ppo(ppo):
